@@ -3,6 +3,7 @@ import ALV.Model.C03
 import ALV.Spec.C03
 import ALV.Spec.C03Call
 import ALV.Spec.C03X
+import ALV.Spec.C03XC
 namespace ALV.Driver.C03
 open ALV ALV.J ALV.C03
 
@@ -245,6 +246,7 @@ def getXOp (j : Json) : Except String (XOp Int) := do
   | "take" => pure (.take (← i) (← getCnt (← field j "n")))
   | "peek" => pure (.peek (← i) (← getCnt (← field j "n")))
   | "skip" => pure (.skip (← i) (← getNat (← field j "n")))
+  | "skipc" => pure (xskipOf (← i) (← getCnt (← field j "n")))      -- any count, refused ones included
   | "limit" => pure (.limit (← i) (← getNat (← field j "n")))
   | "append" => pure (.append (← i) (← getList getEv (← field j "es")))
   | "map" => pure (.map (← i) (mapXT (← getNat (← field j "f"))))
@@ -269,7 +271,10 @@ def handle (entry : String) (j : Json) : Except String Json := do
     let ops ← getList getXOp (← field j "ops")
     let m := xrun fuel (XSt.empty : XSt Int) ops
     let s := xspecRun ([] : XPool Int) ops
-    pure <| Json.mkObj [("model", arr (obsJson intCodec) m), ("spec", arr (obsJson intCodec) s)]
+    -- the specification with copies (Spec/C03XC.lean): compared on EVERY history, copies or not
+    let sc := srun fuel (SSt.empty : SSt Int) ops
+    pure <| Json.mkObj [("model", arr (obsJson intCodec) m), ("spec", arr (obsJson intCodec) s),
+      ("spec_copies", arr (obsJson intCodec) sc)]
   | "calls" =>
     let tagged := match optField j "tagged" with | some (Json.bool b) => b | _ => false
     let fl := match optField j "fuel" with | some (Json.int n) => n.toNat | _ => fuel
